@@ -23,9 +23,13 @@ fn jstr(s: &str) -> String {
 
 fn main() {
     let a: Vec<String> = std::env::args().collect();
-    if a.len() < 6 || a[1] != "det" {
-        eprintln!("usage: vh det <family> <seed0> <count> <out-file> [tier]");
+    if a.len() < 6 || (a[1] != "det" && a[1] != "live") {
+        eprintln!("usage: vh det|live <family> <seed0> <count> <out-file> [tier]");
         std::process::exit(2);
+    }
+    if a[1] == "live" {
+        live_main(&a);
+        return;
     }
     let family = a[2].as_str();
     let seed0: u64 = a[3].parse().unwrap();
@@ -72,6 +76,92 @@ fn main() {
     println!(
         "{{\"family\":{},\"runs\":{},\"steps\":{},\"events\":{},\"wall_s\":{:.3},\"oracle_failures\":[{}],\"unresolved_sites\":[{}]}}",
         jstr(family), count, steps, events, t0.elapsed().as_secs_f64(), fl.join(","), ur.join(",")
+    );
+    std::process::exit(if failures.is_empty() { 0 } else { 1 });
+}
+
+/// vh live <family> <seed0> <count> <out-file> [tier]
+///   runs seeded scenarios on the real runtime (one process; the scheduler is a process-global singleton) with
+///   logging hooks and seeded perturbation; a watchdog turns "no event for hang_ms while unfinished" into a hang
+///   report (trace dumped, process ends).
+fn live_main(a: &[String]) {
+    use std::sync::atomic::Ordering;
+    let family = a[2].as_str();
+    let seed0: u64 = a[3].parse().unwrap();
+    let count: u64 = a[4].parse().unwrap();
+    let tier: u32 = a.get(6).and_then(|s| s.parse().ok()).unwrap_or(0);
+    let mut out = std::io::BufWriter::new(std::fs::File::create(&a[5]).unwrap());
+    let workers = std::env::var("VH_WORKERS").ok().and_then(|s| s.parse().ok()).unwrap_or(1 + (seed0 % 3) as usize);
+    may::config().set_workers(workers);
+    rt::install();
+    let mut failures: Vec<(u64, String)> = vec![];
+    let mut events = 0usize;
+    let mut runs = 0u64;
+    let mut unresolved = std::collections::BTreeSet::new();
+    let t0 = std::time::Instant::now();
+    let mut hung = false;
+    for seed in seed0..seed0 + count {
+        let mut rng = Rng::new(seed);
+        let Some(b) = scn::build_live(family, &mut rng, tier) else {
+            eprintln!("unknown live family {family}");
+            std::process::exit(2);
+        };
+        rt::set_filter(&b.filter);
+        let perturb = [0u64, 100, 300, 600][rng.below(4) as usize];
+        rt::live_setup(seed, perturb);
+        let run = b.run;
+        let h = std::thread::Builder::new()
+            .name("main".into())
+            .spawn(move || {
+                may::verif::push_actor("main".into());
+                let r = std::panic::catch_unwind(std::panic::AssertUnwindSafe(run));
+                may::verif::pop_actor();
+                match r {
+                    Ok(f) => f,
+                    Err(_) => vec!["scenario main panicked".to_string()],
+                }
+            })
+            .unwrap();
+        let mut last = usize::MAX;
+        let mut idle = std::time::Instant::now();
+        let mut fails = vec![];
+        loop {
+            if h.is_finished() {
+                fails = h.join().unwrap_or_else(|_| vec!["scenario thread died".into()]);
+                break;
+            }
+            let n = rt::LIVE_EVENTS.load(Ordering::Relaxed);
+            if n != last {
+                last = n;
+                idle = std::time::Instant::now();
+            } else if idle.elapsed().as_millis() as u64 > b.hang_ms {
+                hung = true;
+                fails.push(format!("hang: no hooked event for {} ms while the scenario is unfinished", b.hang_ms));
+                break;
+            }
+            std::thread::sleep(std::time::Duration::from_millis(2));
+        }
+        runs += 1;
+        std::thread::sleep(std::time::Duration::from_millis(3)); // let kernel tails of finished coroutines drain
+        rt::live_stop();
+        let log = if hung { rt::live_snapshot() } else { rt::live_take() };
+        let mut c = Canon::new();
+        let lines = c.lines(&log);
+        for u in c.unresolved_sites { unresolved.insert(u); }
+        events += lines.len();
+        let status = if hung { "hang" } else if fails.is_empty() { "ok" } else { "oracle-fail" };
+        writeln!(out, "#scenario seed={} {} workers={} perturb={}", seed, b.header, workers, perturb).unwrap();
+        for l in &lines { writeln!(out, "{l}").unwrap(); }
+        writeln!(out, "#end {status}").unwrap();
+        for f in fails { failures.push((seed, f)); }
+        if hung { break; }
+    }
+    out.flush().unwrap();
+    let fl: Vec<String> = failures.iter().map(|(s, f)| format!("{{\"seed\":{},\"what\":{}}}", s, jstr(f))).collect();
+    let ur: Vec<String> = unresolved.iter().map(|s| jstr(s)).collect();
+    println!(
+        "{{\"family\":{},\"runs\":{},\"steps\":0,\"events\":{},\"wall_s\":{:.3},\"workers\":{},\"oracle_failures\":[{}],\"unresolved_sites\":[{}]}}",
+        jstr(family), runs, events, t0.elapsed().as_secs_f64(), workers, fl.join(","), ur.join(",")
     );
     std::process::exit(if failures.is_empty() { 0 } else { 1 });
 }
